@@ -100,13 +100,13 @@ def absmax(V, rank):
 
 
 # ---------------------------------------------------------------------------------------------- spectra functions
-def _spectra_setup(V, st, lead_zero, container):
+def _spectra_setup(V, st, lead_zero, container, pdtype='float'):
     def setup():
         install(V)
         n = V.size('n', 2)
         acc = V.array('acc', n, origin='param')
         P = V.size('P', 2 if lead_zero else 1)
-        per = V.array('T', P, origin='param')
+        per = V.array('T', P, origin='param', dtype=pdtype)        # integer-valued period containers are legal input too
         dt, xi = V.real('dt'), V.real('xi')
         V.assume(dt > 0, xi >= 0, xi < 1)
         if isinstance(P, int):
@@ -179,11 +179,12 @@ def spectra_clauses(V, out, st, lead_zero, true_spectra):
 
 
 @unit('C03', 'pseudo_response_spectra', functions=[SD + 'pseudo_response_spectra'],
-      cases=[dict(lead_zero=z, container=c) for z in (False, True) for c in ('array', 'list', 'tuple')],
+      cases=[dict(lead_zero=z, container=c, pdtype=d) for z in (False, True) for c in ('array', 'list', 'tuple') for d in ('float', 'int')],
       sizes=dict(n=[3], P=[2]), budget_ms=30000)
-def pseudo(V, lead_zero, container):
+def pseudo(V, lead_zero, container, pdtype):
     st = {}
-    for out in V.run(SD + 'pseudo_response_spectra', _spectra_setup(V, st, lead_zero, container)):
+    for out in V.run(SD + 'pseudo_response_spectra', _spectra_setup(V, st, lead_zero, container, pdtype)):
+        out.replay_info = dict(module='spectra', entry='pseudo_response_spectra', container=container, pdtype=pdtype, lead_zero=lead_zero)
         if not out.no_raise():
             continue
         out.side_conditions()
@@ -191,11 +192,12 @@ def pseudo(V, lead_zero, container):
 
 
 @unit('C03', 'true_response_spectra', functions=[SD + 'true_response_spectra'],
-      cases=[dict(lead_zero=z, container=c) for z in (False, True) for c in ('array', 'list', 'tuple')],
+      cases=[dict(lead_zero=z, container=c, pdtype=d) for z in (False, True) for c in ('array', 'list', 'tuple') for d in ('float', 'int')],
       sizes=dict(n=[3], P=[2]), budget_ms=30000)
-def true_spectra(V, lead_zero, container):
+def true_spectra(V, lead_zero, container, pdtype):
     st = {}
-    for out in V.run(SD + 'true_response_spectra', _spectra_setup(V, st, lead_zero, container)):
+    for out in V.run(SD + 'true_response_spectra', _spectra_setup(V, st, lead_zero, container, pdtype)):
+        out.replay_info = dict(module='spectra', entry='true_response_spectra', container=container, pdtype=pdtype, lead_zero=lead_zero)
         if not out.no_raise():
             continue
         out.side_conditions()
